@@ -147,6 +147,21 @@ func (b *Builder) AddCapture(captureIndex uint32, isStart bool, next StateID) St
 // look is the assertion type (start/end of text/line).
 // next is the state to transition to if the assertion succeeds.
 func (b *Builder) AddLook(look Look, next StateID) StateID {
+	// The lazy DFA resolves look-around assertions from the bytes next to the
+	// current position and caches the resulting transition per byte class. Bytes an
+	// assertion tells apart must therefore not share a class, or a transition
+	// computed for one of them is reused for the other (regex-automata does the
+	// same in Look::add_to_byteset).
+	switch look {
+	case LookStartLine, LookEndLine:
+		b.byteClassSet.SetRange('\n', '\n')
+	case LookWordBoundary, LookNoWordBoundary:
+		b.byteClassSet.SetRange('0', '9')
+		b.byteClassSet.SetRange('A', 'Z')
+		b.byteClassSet.SetRange('_', '_')
+		b.byteClassSet.SetRange('a', 'z')
+	}
+
 	id := StateID(conv.IntToUint32(len(b.states)))
 	b.states = append(b.states, State{
 		id:   id,
